@@ -92,6 +92,7 @@ type vpWorld struct {
 
 	beh   map[[2]int]string
 	cbeh  map[[2]int]bool
+	nbeh  map[[2]int]int // result-object constructor (ctor, invocation) -> index of the field it leaves nil
 	calls map[int]int
 
 	nextInst int
@@ -458,8 +459,13 @@ func (w *vpWorld) makeConstructor(r *vpReg) any {
 		// outputs
 		var objs []reflect.Value
 		var ids []string
+		nilField, hasNil := w.nbeh[[2]int{ctor, inv}]
 		for k, o := range r.outs {
 			if o.alias {
+				continue
+			}
+			if hasNil && r.form == "ro" && k == nilField {
+				objs = append(objs, reflect.Zero(o.typ)) // this field stays nil
 				continue
 			}
 			obj := reflect.New(slotType(o.slot).Elem())
@@ -701,7 +707,7 @@ func (r *vpRun) emit(op, obs string) {
 func (r *vpRun) newWorld(rng *rand.Rand) *vpWorld {
 	w := &vpWorld{rng: rng, scopes: map[int]Scope{}, closedSc: map[int]bool{}, ctxs: map[int]context.Context{}, cancels: map[int]context.CancelFunc{}, ctxPar: map[int]int{},
 		typeIDs: map[reflect.Type]int{}, keyIDs: map[string]int{}, grpIDs: map[string]int{},
-		beh: map[[2]int]string{}, cbeh: map[[2]int]bool{}, calls: map[int]int{}, byInst: map[int]*vpBase{},
+		beh: map[[2]int]string{}, cbeh: map[[2]int]bool{}, nbeh: map[[2]int]int{}, calls: map[int]int{}, byInst: map[int]*vpBase{},
 		singletonOf: map[string]*vpBase{}, scopedOf: map[string]*vpBase{}, handed: map[*vpBase]string{}}
 	r.w = w
 	r.scen++
@@ -797,6 +803,9 @@ func (r *vpRun) register(w *vpWorld) {
 	}
 	for k := range w.cbeh {
 		r.emit(fmt.Sprintf("p cbeh %d %d", k[0], k[1]), "ok")
+	}
+	for k, v := range w.nbeh {
+		r.emit(fmt.Sprintf("p nbeh %d %d %d", k[0], k[1], v), "ok")
 	}
 }
 
@@ -982,7 +991,8 @@ func (r *vpRun) monitorVerdict(w *vpWorld, err error) {
 		// a constructor fault injected by the scenario is legitimate; anything else on a valid set is not
 		var inj *vpInjected
 		var pe *ConstructorPanicError
-		if want == "ok" && !errors.As(err, &inj) && !errors.As(err, &pe) {
+		// (a result object with a field left nil makes the resolution of that field fail: also a scenario fault)
+		if want == "ok" && !errors.As(err, &inj) && !errors.As(err, &pe) && len(w.nbeh) == 0 {
 			w.fail("C08,C06", "Build failed on a valid registration set without any constructor failing: %v", err)
 		}
 		if want != "ok" {
@@ -1696,6 +1706,13 @@ func (w *vpWorld) generate(o vpGenOpts) {
 		for k := rng.Intn(4); k > 0; k-- {
 			reg := w.regs[rng.Intn(len(w.regs))]
 			w.cbeh[[2]int{reg.idx + 1, 1 + rng.Intn(3)}] = true
+		}
+		// a transient result-object constructor that leaves one field nil at some invocation (for scoped and
+		// singleton registrations this is the recorded finding D15 and is not generated)
+		for _, reg := range w.regs {
+			if reg.form == "ro" && reg.life == Transient && len(reg.outs) >= 2 && rng.Intn(2) == 0 {
+				w.nbeh[[2]int{reg.idx + 1, 1 + rng.Intn(3)}] = rng.Intn(len(reg.outs))
+			}
 		}
 		// an initializer that fails when a later scope is created (its first run is the root scope at Build)
 		for _, reg := range w.regs {
